@@ -812,20 +812,33 @@ def impl_plain(c):
 
     sink, sink_by = Sink("sink"), Sink("sink_by")
     tgt, by = Proc("tgt", sink), Proc("bystander", sink_by)
+    hook_sink = Sink("hook_sink")
+    hooks_run = []          # completion hooks of the requests sent to the faulted target: [time ns, pid]
+
+    def mk_hook(pid):
+        def hook(finish_time):
+            hooks_run.append([finish_time.nanoseconds, pid])
+            ev = Event(time=finish_time, event_type="out", target=hook_sink)
+            ev.context["metadata"].update(pid=pid, k=-1)
+            return [ev]
+        return hook
     fs, handles = build_schedule(c["faults"], lambda f: _crash_fault(f, "tgt"))
     tmax = max([x for f in c["faults"] for x in (f["s"], f["e"] or 0, f["c"] or 0)] + [a[0] + sum(a[2]) for a in c["arrs"]]) + S
-    sim = Simulation(end_time=Instant(tmax + S), entities=[tgt, by, sink, sink_by], fault_schedule=fs)
+    sim = Simulation(end_time=Instant(tmax + S), entities=[tgt, by, sink, sink_by, hook_sink], fault_schedule=fs)
     arm_cancels(sim, c["faults"], handles)
     for t, pid, ds in c["arrs"]:
         for ent in (tgt, by):
             ev = Event(time=Instant(t), event_type="req", target=ent)
             ev.context["metadata"].update(pid=pid, ds=ds)
+            if ent is tgt:
+                ev.add_completion_hook(mk_hook(pid))     # whoever waits for this request (an ack hook, a driver's re-poll)
             sim.schedule(ev)
     sim.run()
     order = {a[1]: i for i, a in enumerate(c["arrs"])}
     key = lambda r: (order[r[1]], r[2])
     return dict(tgt=sorted(tgt.log, key=key), by=sorted(by.log, key=key),
-                sink=sorted(sink.log, key=key), sink_by=sorted(sink_by.log, key=key))
+                sink=sorted(sink.log, key=key), sink_by=sorted(sink_by.log, key=key),
+                hooks=sorted(hooks_run, key=lambda r: order[r[1]]), hook_sink=sorted([r[:2] for r in hook_sink.log], key=lambda r: order[r[1]]))
 
 
 def crash_flag_overlap(faults, t):
@@ -850,6 +863,21 @@ def oracle_plain(c, obs):
         return [dict(clause="every executed step emits exactly one event (harness sanity) / other entities are unaffected",
                      mechanism="emitted-events-differ-from-executed-steps", sink=obs["sink"][:6], executed=obs["tgt"][:6])]
     entered = {r[1] for r in obs["tgt"] if r[2] == 0}
+    # completion hooks of a request: only after its handler ran to the end, once, at the instant it finished
+    # (a request dropped because its target is down never finishes: nothing runs and nothing is emitted for it)
+    last_step = {}
+    for t, pid, k, flag in obs["tgt"]:
+        last_step[pid] = max(last_step.get(pid, (-1, -1)), (k, t))
+    for t, pid in obs.get("hooks", []):
+        nsteps = len(next(a[2] for a in c["arrs"] if a[1] == pid))
+        fin = last_step.get(pid)
+        if pid not in entered:
+            out.append(dict(clause="while an entity is crashed or paused it executes nothing and emits no events", mechanism="completion-hook-of-a-dropped-event-ran",
+                            t=t, pid=pid, what="the request was dropped at a crashed target, yet its completion hooks ran and their events were scheduled"))
+        elif fin is None or fin[0] != nsteps or fin[1] != t:
+            out.append(dict(clause="completion hooks take effect at the instant the handler finishes (harness sanity)", mechanism="completion-hook-at-wrong-time", t=t, pid=pid))
+    if obs.get("hooks") is not None and obs.get("hook_sink") != obs.get("hooks"):
+        out.append(dict(clause="every hook that ran emitted exactly one event (harness sanity)", mechanism="hook-events-differ"))
     for t, pid, k, flag in obs["tgt"]:
         if any(covers(f, t) for f in faults):
             if k >= 1:
